@@ -467,6 +467,58 @@ func featC13(m *gen.Mixed, ts *gen.TieSetup, p *modelParams) {
 	}
 }
 
+// featRank100Tie (C01 chains only; the one-step model declines rank-100 ties): one transfer pays the same amount
+// of PEG to 100 addresses never seen before, which puts more than 100 holders on the ledger with a tie across
+// rank 100. Which of them count as top-100 stakers is decided by the order their balance rows were created
+// in, i.e. by the chain. Forty of them submit staking records in the following blocks.
+func featRank100Tie(m *gen.Mixed, ts *gen.TieSetup, p *modelParams) {
+	e := m.W.Eras
+	var fresh []forge.Key
+	for i := 0; i < 100; i++ {
+		fresh = append(fresh, forge.NewKey(fmt.Sprintf("rank100-%d-%d", p.Seed, i)))
+	}
+	h0 := e.V20 + 6
+	if h0%144 == 0 {
+		h0++
+	}
+	m.ForceGraded[h0] = true
+	m.Schedule(h0, func(v *gen.View, s *forge.BlockSpec) {
+		// the richest PEG holder among the lab's actors pays
+		var payer forge.Key
+		var best uint64
+		for _, k := range m.Actors {
+			if b := v.Balances.Get(k.FA(), fat2.PTickerPEG); b > best && !k.IsEth() {
+				payer, best = k, b
+			}
+		}
+		if best < 200*1e8 {
+			return
+		}
+		var outs []forge.Out
+		for _, k := range fresh {
+			outs = append(outs, forge.Out{Addr: k.FA(), Amount: 1e8})
+		}
+		s.Tx = append(s.Tx, forge.SignedBatch([]forge.Tx{{From: payer.FA(), Asset: fat2.PTickerPEG, Amount: 100 * 1e8, To: outs}}, m.W.EntryTime(h0)+150, payer))
+	})
+	for d := uint32(2); d <= 5; d++ {
+		h := h0 + d
+		if h%144 == 0 {
+			continue
+		}
+		m.ForceGraded[h] = true
+		m.Schedule(h, func(v *gen.View, s *forge.BlockSpec) {
+			if v.Balances.Get(fresh[0].FA(), fat2.PTickerPEG) == 0 {
+				return
+			}
+			var st []forge.Key
+			for i := 0; i < 100; i += 3 { // every third newcomer, from both ends of the creation order
+				st = append(st, fresh[i])
+			}
+			s.SPR = append(s.SPR, m.W.StdSPRs(h, st, m.W.Prices)...)
+		})
+	}
+}
+
 // mintKey is the key of the substituted mint address of the mint-key scenario.
 func mintKey(seed int64) forge.Key { return forge.NewKey(fmt.Sprintf("mint-owner-%d", seed)) }
 
